@@ -142,6 +142,9 @@ func DrawProfile(property, tier string, r *PRNG) *Profile {
 		p.PHostile = Pick(r, []float64{0.15, 0.25, 0.4})
 		p.PStale = Pick(r, []float64{0.3, 0.5})
 		scale(p.Weights, dataKinds, 0.2)
+		// the fee pool is a holding like any other (R3): attempts on it and purchases that fill it carry weight
+		scale(p.Weights, []string{"SendFromFeePool"}, 5)
+		scale(p.Weights, []string{"Buy", "SetFeeParams"}, 1.5)
 		// whose balance is whose: accounts whose addresses extend one another's bytes
 		if len(p.AddrLens) == 0 && r.Chance(0.4) {
 			p.AddrLens = []int{32}
